@@ -127,7 +127,9 @@ impl IOQueue {
     /// Drop all but last chunks
     pub fn clear_but_last(&mut self) {
         if self.chunks.len() > 1 {
-            self.chunks.drain(1..);
+            // dropped chunks are no longer readable
+            let dropped: usize = self.chunks.drain(1..).map(|chunk| chunk.len()).sum();
+            self.length -= dropped;
         }
     }
 
